@@ -5,6 +5,8 @@ mod host;
 mod c16;
 mod c16wire;
 mod c18;
+mod c10;
+mod c09;
 
 use engine::Ctx;
 
@@ -53,6 +55,10 @@ fn main() {
         ("C04", Some(p)) => c04::replay(&ctx, p),
         ("C18", None) => c18::run(&ctx),
         ("C18", Some(p)) => c18::replay(&ctx, p),
+        ("C10", None) => c10::run(&ctx),
+        ("C10", Some(p)) => c10::replay(&ctx, p),
+        ("C09", None) => c09::run(&ctx),
+        ("C09", Some(p)) => c09::replay(&ctx, p),
         ("C16", None) => c16::run(&ctx),
         ("C16", Some(p)) => c16::replay(&ctx, p),
         _ => {
